@@ -24,3 +24,11 @@ Theorem C14_region_lists_gb_eq_gff : forall genome fs trs forms, length trs = le
   map (region_gff genome) fs = map (@Ok aregion) (map (fun x => region_gb (fst (fst x)) (snd (fst x)) (snd x)) (combine (combine forms fs) trs)).
 Proof. exact region_lists_gb_eq_gff. Qed.
 Print Assumptions C14_region_lists_gb_eq_gff.
+
+(* D14 (repaired): the rule "reverse iff first position > last position", which the GenBank path used for the strand before
+   the repair, disagrees with the annotation's strand on joins listed in descending order, in both directions *)
+Theorem C14_old_strand_rule_refuted :
+  (exists f, f_rev f = false /\ old_is_reverse (gb_positions_form0 f) = true) /\
+  (exists f, f_rev f = true /\ old_is_reverse (gb_positions_form0 f) = false).
+Proof. exact old_strand_rule_refuted. Qed.
+Print Assumptions C14_old_strand_rule_refuted.
